@@ -1221,8 +1221,9 @@ class Sum(Expression):
         return self
 
     def _get_key(self):  # type:ignore
-        # the ranges break ties between sums over the same expression
-        return 1, *self.expression._get_key(), tuple(v.name for v in self._get_sorted_ranges())  # type:ignore
+        # the ranges break ties between sums over the same expression; the inner key is kept
+        # as one element so that keys of sums over products of different lengths stay comparable
+        return 1, self.expression._get_key(), tuple(v.name for v in self._get_sorted_ranges())
 
     def _get_sorted_ranges(self) -> Sequence[Variable]:
         return sorted(self.ranges, key=attrgetter("name"))
